@@ -274,17 +274,22 @@ PLANS["C14"] = {
             "mutable) x all view sizes 0..=N x 0..=N (N=12 quick, 28 thorough) x placements x both axes x every (start, size, parts) with "
             "start 0..=extent+1, size 1..=extent+1, parts 1..=size+1, plus values near u32::MAX and split-of-split; parts are read through "
             "ImageView (identity tags) and, for mutable views, written ((index+1)<<20 added) and read back through the parent: every band "
-            "pixel incremented exactly once by the right part, nothing else changed; interleave step: sibling mutable parts used alternately "
+            "pixel incremented exactly once by the right part, nothing else changed; the extents of the parts must be floor or ceil of "
+            "size/parts and add up to size (which parts are the bigger ones is not prescribed); long step: 1xN and Nx1 views with N up to 100 000 "
+            "split into up to N parts (extent x parts beyond 2^32); interleave step: sibling mutable parts used alternately "
             "row by row (also under Miri in C03); non-trivial = every (kind, size, placement); distinct = distinct descriptor",
     "assumptions": ["NonZeroU32 arguments make size = 0 and parts = 0 unrepresentable"],
     "exhaustive": {"quick": True, "thorough": True},
-    "quick": [step("rel", "firv-views", 0, sub="splits"), step("dbg", "firv-views", 0, sub="splits"), step("rel", "firv-views", 0, sub="interleave")],
+    "quick": [step("rel", "firv-views", 0, sub="splits"), step("dbg", "firv-views", 0, sub="splits"), step("rel", "firv-views", 0, sub="interleave"),
+              step("rel", "firv-views", 0, sub="long"), step("dbg", "firv-views", 0, sub="long")],
     "thorough": [step("rel", "firv-views", 0, sub="splits", timeout=7200), step("dbg", "firv-views", 0, sub="splits", timeout=14000),
-                 step("rel", "firv-views", 0, sub="interleave", timeout=7200)],
+                 step("rel", "firv-views", 0, sub="interleave", timeout=7200),
+                 step("rel", "firv-views", 0, sub="long"), step("dbg", "firv-views", 0, sub="long")],
 }
 FLOORS["C14"] = {"quick": [
     (">= 10^5 split calls with both outcomes, >= 10^5 mutable splits, >= 10^6 pixels read back through the parent",
      lambda o: o["counters"]["split_some"] >= 10 ** 4 and o["counters"]["split_none"] >= 10 ** 5 and o["counters"]["mut_split_calls"] >= 10 ** 5 and o["counters"]["pixels_read_back_through_parent"] >= 10 ** 6),
+    (">= 500 splits of long thin views", lambda o: o["counters"]["long_splits"] >= 500),
 ]}
 FLOORS["C14"]["thorough"] = FLOORS["C14"]["quick"]
 
